@@ -1775,8 +1775,14 @@ func (f *fragment) topBitmapPairs(rowIDs []uint64) []bitmapPair {
 	// Otherwise retrieve specific rows.
 	pairs := make([]bitmapPair, 0, len(rowIDs))
 	for _, rowID := range rowIDs {
-		// Look up cache first, if available.
-		if n := f.cache.Get(rowID); n > 0 {
+		// Look up cache first, if available. The count is read under the
+		// fragment lock: a Set() that moves a column of a mutex/bool field
+		// updates the counts of two rows, one after the other, while it
+		// holds the lock.
+		f.mu.Lock()
+		n := f.cache.Get(rowID)
+		f.mu.Unlock()
+		if n > 0 {
 			pairs = append(pairs, bitmapPair{
 				ID:    rowID,
 				Count: n,
